@@ -132,7 +132,7 @@ func main() {
 	server = certs.Issue(ca, certs.Opts{CN: "collector", DNS: []string{"localhost"}, IPs: []string{"127.0.0.1", "::1"}})
 	client = certs.Issue(ca, certs.Opts{CN: "exporter", Client: true})
 	cfg := configs[c.Batch%len(configs)]
-	per := c.Pick(400, 30000)
+	per := c.Pick(400, 16000)
 	if c.NBatch > len(configs) {
 		per = per * len(configs) / c.NBatch * 1
 	}
